@@ -59,13 +59,17 @@ class TracedFile:
     def seek(self, pos, whence=0):
         if whence != 0:
             raise HarnessError("file seam: seek with whence != 0 is not modelled")
-        self._seam.event(self._fid, "seek", pos)
+        if "r" not in self.mode:
+            self._seam.event(self._fid, "seek", pos)
         return self._real.seek(pos)
 
     def close(self):
         if not self._closed:
             self._closed = True
-            self._seam.event(self._fid, "close", None)
+            # read handles are closed whenever the garbage collector finds their owner (SystemGro.__del__): logging
+            # that would put a GC-timed event into the log.  Only writers are part of the history.
+            if "r" not in self.mode:
+                self._seam.event(self._fid, "close", None)
             self._real.close()
 
     def flush(self):
